@@ -400,22 +400,6 @@ theorem passed_add {t : Tally} {votes' : Votes} {k : Vote} {w : Nat} {b : Block}
 theorem isPassed_status_irrel (t : Tally) (s : Status) (b : Block) :
     Cw3.isPassed { t with status := s } b = Cw3.isPassed t b := rfl
 
-def blockLe (a b : Block) : Prop := a.height ≤ b.height ∧ a.time ≤ b.time
-
-/-- Worlds reachable by a history whose blocks never go back; the second argument is the block of
-the last operation (any block for the freshly instantiated world). -/
-inductive ReachableAt (fuel : Nat) : World → Block → Prop
-  | init {m : InstMsg} {s : State} (self : Addr) (bank : AMap (Addr × String) Nat) (sink : Bool) (b : Block) :
-      instantiate m = .ok s → ReachableAt fuel (World.init s self bank sink) b
-  | step {w : World} {b : Block} (op : Op) : ReachableAt fuel w b → blockLe b op.blk → ReachableAt fuel (step fuel w op) op.blk
-
-theorem ReachableAt.reachable {fuel : Nat} {w : World} {b : Block} (h : ReachableAt fuel w b) : Reachable fuel w := by
-  induction h with
-  | init self bank sink b hi => exact ⟨_, _, self, bank, sink, [], hi, rfl⟩
-  | step op _ _ ih =>
-    obtain ⟨m, s, self, bank, sink, ops, hi, rfl⟩ := ih
-    exact ⟨m, s, self, bank, sink, ops ++ [op], hi, by simp [run, List.foldl_append]⟩
-
 /-- The tally of every proposal of a state satisfying `Inv` meets the side conditions of the library. -/
 theorem validT_of_inv {s : State} (hi : Inv s) {id : Nat} {p : Proposal} (hp : s.core.proposals.get? id = some p) :
     ValidT p.tally := by
